@@ -263,9 +263,13 @@ MutOn(x) ==
   \E q \in {Pick(1 .. 6)} :
    \E k \in {IF q = 1 THEN PickSeq(MutKindsAll) ELSE PickSeq(MutKindsFor(ShapeOfVar(x)))} :
      Emit(MutOfKind(k, PlaceOn(x, ShapeOfVar(x)), Depth - 1, {})) /\ UNCHANGED scope
+Insts == {x \in Names("var") : ShapeOfVar(x) = "inst"}
 Mut ==
   \E q \in {Pick(1 .. 6)} :
-    IF Shaped # {} /\ q # 1 THEN \E x \in {Pick(Shaped)} : MutOn(x)
+    IF Insts # {} /\ q = 2 THEN \E x \in {Pick(Insts)} : MutOn(x)
+    ELSE IF Names("cls") # {} /\ q = 2
+    THEN \E x \in {Pick(VarNames)} : Emit(<<"assign", x, FreshOf("inst")>>) /\ Bind(x, "var", 0)
+    ELSE IF Shaped # {} /\ q # 1 THEN \E x \in {Pick(Shaped)} : MutOn(x)
     ELSE IF Names("var") # {} /\ q = 1 THEN \E x \in {Pick(Names("var"))} : MutOn(x)
     ELSE \E x \in {Pick(VarNames)} :
            Emit(<<"assign", x, FreshOf(Pick({"list", "list1", "nest", "dict", "set", "inst"}))>>)
@@ -360,6 +364,8 @@ PatKindsB(sh) ==
   CASE sh = "list" -> <<"pseq", "pseq", "pseq", "pseq", "pstar", "pstar", "pstar", "pclsL", "pval", "pcap",
                         "pmap", "por", "pas">>
     [] sh = "dict" -> <<"pmap", "pmap", "pmap", "pmap", "pclsD", "pseq", "pval", "pcap", "por", "pas">>
+    [] sh \in LitKinds -> <<"pvalS", "pvalS", "pvalS", "pval", "pval", "pcls", "pcls", "por", "por", "pas", "pcap",
+                            "pseq">>                  \* the subject is a literal of kind sh
     [] OTHER -> PatKindsA
 AltPat(u) ==
   PickSeq(<< <<"pval", Pick(PatLits)>>, <<"pval", Pick(PatLits)>>, <<"pcls", Pick(PatClasses), <<>>, <<>>>>,
@@ -396,6 +402,7 @@ RandPat(d, tag, refut) ==
       [] k = "pmap" -> One({<<"pmap", MapItems(n, d - 1, tag), Pick({"", tag \o "k"})>> : n \in {Pick(0 .. 2)}})
       [] k = "pcls" -> ClsPat(d, tag)
       [] k = "pclsL" -> <<"pcls", Pick({"list", "tuple"}), IF Pick(1 .. 2) = 1 THEN <<>> ELSE <<<<"pcap", tag>>>>, <<>>>>
+      [] k = "pvalS" -> <<"pval", refut>>
       [] k = "pclsD" -> <<"pcls", "dict", IF Pick(1 .. 2) = 1 THEN <<>> ELSE <<<<"pcap", tag>>>>, <<>>>>
       [] k = "por" -> <<"por", AltPat(d), AltPat(tag)>>
       [] k = "pas" -> <<"pas", RandPat(d - 1, tag \o "i", "R"), tag>>
@@ -452,10 +459,13 @@ Subject(params) ==
   One({IF q <= 3 THEN UnkLen(params)
        ELSE IF q <= 5 /\ (Names("var") \cup params) # {} THEN <<"name", Pick(Names("var") \cup params)>>
        ELSE IF q = 6 THEN ContainerExpr(1, params)
-       ELSE RandExpr(Depth, params) : q \in {Pick(1 .. 7)}})
+       ELSE IF q = 7 THEN Lit(params)
+       ELSE IF q = 8 THEN FreshOf("dict")
+       ELSE RandExpr(Depth, params) : q \in {Pick(1 .. 9)}})
 SubjShape(e, params) ==
   IF e[1] = "name" THEN (IF e[2] = "ps" THEN "list" ELSE IF e[2] \in params THEN Pick({"list", "list", "dict", "A"})
                          ELSE IF ShapeOfVar(e[2]) \in {"list", "dict"} THEN ShapeOfVar(e[2]) ELSE "A")
+  ELSE IF e[1] = "lit" THEN e[2]
   ELSE IF e[1] = "tuple" \/ e[1] = "slice" \/ (e[1] = "bcall" /\ e[2] = "tuple") THEN "list"
   ELSE IF ExprShape(e) \in {"list", "dict"} THEN ExprShape(e) ELSE "A"
 
